@@ -1,12 +1,13 @@
 import json, os, shutil
 
 SPEC = {
-    "lean_modules": ["SemaModel.C13.Props"],
+    "lean_modules": ["SemaModel.C13.Props", "SemaModel.C13.Tie"],
     "lean_dirs": ["SemaModel/C13"],
     "harness": "c13",
     "harness_args": {"quick": ["-n", 600, "-sharekeys", 20000], "thorough": ["-n", 6000, "-sharekeys", 100000]},
     "level": "proof",
-    "tie": "T3: cluster.RendezvousHash and the hand-written Lean model (h := XXH64 written in Lean) are run on the same op lines "
+    "tie": "T1: cluster/hashing.go RendezvousHash is translated to SemaModel/Generated/Rendezvous.lean on every run (tools/go2lean, extended mode: the local struct ServerScore, the scoring loop, the comparator cmp.Compare(a.Score, b.Score), the topK clamp, the result loop; xxhash.Sum64String and slices.SortFunc stay abstract parameters); C13_tie_spec proves that the generated definition meets IsRendezvous for every hash, every sort function returning an ordered permutation and every concatenation-preserving reading of strings as bytes, C13_tie that under NoTies it EQUALS the model's rendezvous, C13_tie_owner that RendezvousHash(key, servers, 1)[0] is the model's owner. "
+           "T3: cluster.RendezvousHash and the hand-written Lean model (h := XXH64 written in Lean) are run on the same op lines "
            "(boundary/random strings for the hash; random keys x server lists of size 0..46 with duplicates, permutations, one server added/removed; k = 0..n+1); "
            "the XXH64 model is compared with cespare/xxhash Sum64String on every length 0..100 and random strings; "
            "T2: tools/facts_c13 regenerates the hashed concatenation (key+server), the comparator direction, the clamp and every call site "
@@ -18,10 +19,13 @@ SPEC = {
         "Sema.C13.C13_add_cons", "Sema.C13.C13_add", "Sema.C13.C13_add_topk",
         "Sema.C13.C13_remove", "Sema.C13.C13_remove_all",
         "Sema.C13.C13_length", "Sema.C13.C13_clamp", "Sema.C13.C13_sub", "Sema.C13.C13_prefix",
+        # tie theorems (SemaModel/C13/Tie.lean): the model functions = the definition generated from cluster/hashing.go
+        "Sema.C13.C13_tie_shape", "Sema.C13.C13_tie_spec", "Sema.C13.C13_tie", "Sema.C13.C13_tie_owner",
     ],
     "trusted_base": [
         "xxhash is an arbitrary function Bytes -> Nat in every theorem; the executable XXH64 of SemaModel/C13/Model.lean is only the driver's instance, compared with github.com/cespare/xxhash v1.1.0 on every run",
-        "Go strings are byte strings; `key + server` is list append",
+        "Go strings are byte strings; `key + server` is list append (the tie theorems hold for every map String -> Bytes that turns string concatenation into list append)",
+        "tools/go2lean (extended mode) for RendezvousHash: `make([]T, n)` is n zero values, `scores[i] = v` / `res[i] = v` are list updates (an out-of-range index would panic in Go; the loops stay in range), `int` does not overflow",
         "slices.SortFunc returns a permutation of its input that is sorted w.r.t. the comparator (pdqsort, unstable): modelled by IsRendezvous; the stable insertion sort of the driver coincides with it under NoTies (C13_deterministic)",
         "a negative topK (Go: panic in make) is outside the model; tools/facts_c13 pins that every call site passes the constant 1",
         "tools/facts_c13 (go/ast): the regenerated call-site table and shape of RendezvousHash",
